@@ -72,6 +72,11 @@ func captureCorpus(thorough bool) []wireBody {
 		{"a-z-b", KServer, CompNone, []int{3}, []int{3, 0, 4}, false, false},
 		{"zero-messages", KServer, CompNone, []int{0}, []int{}, false, true},
 		{"error-end", KServer, CompNone, []int{3}, []int{5}, true, true},
+		// the largest message comes first: under a read limit below it, what follows is thrown away before the error in the trailers is read
+		{"error-after-two", KServer, CompNone, []int{3}, []int{9, 3}, true, true},
+		// many small messages, more than a kilobyte in all
+		{"many-small", KServer, CompNone, []int{3}, []int{30, 31, 32, 33, 34, 35, 36, 37, 38, 39, 40, 41, 42, 43, 44, 45, 46, 47, 48, 49, 50, 51, 52, 53, 54, 55, 56, 57, 58, 59}, false, false},
+		{"client-many-small", KClient, CompNone, []int{30, 31, 32, 33, 34, 35, 36, 37, 38, 39, 40, 41, 42, 43, 44, 45, 46, 47, 48, 49, 50, 51, 52, 53, 54, 55, 56, 57, 58, 59}, []int{3}, false, false},
 		{"gzip", KServer, CompSendGzip, []int{40}, []int{40, 3}, false, false},
 		{"unary-gzip", KUnary, CompSendGzip, []int{2000}, []int{2000}, false, false},
 		{"client-a-z-b", KClient, CompNone, []int{3, 0, 4}, []int{3}, false, false},
@@ -240,10 +245,16 @@ func deliverLimited(w wireBody, sc memhttp.Script, dropTrailers bool, limit int)
 			hdr.Set("Content-Length", strconv.Itoa(len(w.Body)))
 		}
 		tr := &memhttp.Transport{Handler: refwire.Handler(w.Status, hdr, w.Body, w.Trailer), Proto: 2, SyncCloseReq: true}
+		tr.HoldTrailers = true // the scripted reader decides when the client sees the end of the body
 		tr.WrapRespBody = func(rc io.ReadCloser) io.ReadCloser {
 			r := memhttp.NewScriptReader(rc, nil, sc)
 			if dropTrailers {
 				r.OnCut = tr.DropTrailers
+			}
+			r.OnEnd = func(err error) {
+				if err == io.EOF {
+					tr.PublishTrailers()
+				}
 			}
 			return r
 		}
@@ -454,7 +465,7 @@ func c03Scripts(w wireBody, thorough bool, f func(memhttp.Script) bool) {
 	}
 	strides := []int{1, 2, 3, 4, 5, 6, 7, 8}
 	if n > 200 {
-		strides = []int{1, 7, 4096, 16384, 65536}
+		strides = []int{1, 7, 100, 300, 511, 512, 513, 600, 1000, 1024, 4096, 16384, 65536}
 	}
 	for _, s := range strides {
 		if !emit(nil, s) {
